@@ -8,6 +8,9 @@ import (
 )
 
 func sortStringsInPlace(x []value) {
+	if len(x) <= 1 {
+		return
+	}
 	for _, e := range x {
 		if _, ok := e.(string); !ok {
 			unsupported("sorting symbolic strings")
